@@ -37,4 +37,8 @@ VARIANTS = [
              new="        for interaction_type in keys_self:\n            if len(self.interactions[interaction_type]) != len(other.interactions[interaction_type]):\n                return False\n            for mine, theirs in zip(self.interactions[interaction_type], other.interactions[interaction_type]):\n                if mine != theirs:\n                    return False\n        return True")]),
     dict(name='integers-through-isclose (original defect F24)', expect='fire', key='DT-same-moltype|are_different', edits=[
         dict(file='vermouth/utils.py', old="    if isinstance(left, numbers.Integral):\n", new="    if False and isinstance(left, numbers.Integral):\n")]),
+    dict(name='benign resid restore with the table inlined', expect='silent', edits=[
+        dict(file='bin/martinize2', old='            old_resids = nx.get_node_attributes(molecule, "_old_resid")\n            nx.set_node_attributes(molecule, old_resids, "resid")', new='            nx.set_node_attributes(molecule, nx.get_node_attributes(molecule, "_old_resid"), "resid")')]),
+    dict(name='resid restore skips molecules without a chain', expect='fire', key='SIB-resid-restore|every-molecule', edits=[
+        dict(file='bin/martinize2', old='            old_resids = nx.get_node_attributes(molecule, "_old_resid")\n            nx.set_node_attributes(molecule, old_resids, "resid")', new='            old_resids = nx.get_node_attributes(molecule, "_old_resid")\n            if old_resids:\n                nx.set_node_attributes(molecule, old_resids, "resid")')]),
 ]
